@@ -31,12 +31,26 @@ pub fn to_vec_stub<T: Clone>(s: &[T]) -> Vec<T> {
 }
 
 pub fn with_capacity_stub<T>(n: usize) -> Vec<T> {
+    // real behaviour first: a request above isize::MAX bytes panics with "capacity overflow"
+    let sz = core::mem::size_of::<T>();
+    if sz != 0 {
+        match n.checked_mul(sz) {
+            Some(b) if b <= isize::MAX as usize => {}
+            _ => panic!("capacity overflow (Vec::with_capacity)"),
+        }
+    }
     assert!(n <= ALLOC_BOUND, "VERIF: bound exceeded: Vec::with_capacity");
-    let _ = n;
     Vec::with_capacity_in(ALLOC_BOUND, std::alloc::Global)
 }
 
 pub fn reserve_stub<T, A: std::alloc::Allocator>(v: &mut Vec<T, A>, additional: usize) {
+    let sz = core::mem::size_of::<T>();
+    if sz != 0 {
+        match v.len().checked_add(additional).and_then(|n| n.checked_mul(sz)) {
+            Some(b) if b <= isize::MAX as usize => {}
+            _ => panic!("capacity overflow (Vec::reserve)"),
+        }
+    }
     assert!(v.len() + additional <= ALLOC_BOUND, "VERIF: bound exceeded: Vec::reserve");
     if v.capacity() < ALLOC_BOUND {
         v.reserve_exact(ALLOC_BOUND - v.len());
